@@ -71,7 +71,7 @@ def codec_ok(label):
 
 def gen_stream(ch, cap):
     """Returns dict(stream, cls, ...)."""
-    k = ch.choose("stream", 10, [8, 4, 3, 3, 3, 2, 2, 2, 2, 2])
+    k = ch.choose("stream", 12, [8, 4, 3, 3, 3, 2, 2, 2, 2, 2, 2, 2])
     info = {"kind": k}
     body = b""
     if k == 0:      # well-formed 2x text, known charset
@@ -123,7 +123,9 @@ def gen_stream(ch, cap):
     elif k == 6:    # bad status
         head = ch.pick("badst", [b"2 text/plain\r\n", b"200 ok\r\n", b"ab cd\r\n", b"09 low\r\n",
                                  b"70 high\r\n", b"99 high\r\n", b"-5 neg\r\n", b" 20 lead\r\n",
-                                 b"\r\n", b"2x text\r\n", b"00 zero\r\n"])
+                                 b"\r\n", b"2x text\r\n", b"00 zero\r\n", b"20text/plain\r\n",
+                                 b"51x not found\r\n", b"2000\r\n", b"310 gemini://x.sim/\r\n",
+                                 b"100 prompt\r\n", b"20\ttext/plain\r\n"])
         body = b"body after bad status"
         info["cls"] = "bad-status"
     elif k == 7:    # invalid UTF-8 in header
@@ -136,6 +138,14 @@ def gen_stream(ch, cap):
                                 b"20 text/plain\nlf-only-then\r\n"])
         body = b"grey body"
         info["cls"] = "grey"
+    elif k == 10:   # body exactly at / just below the cap: must be accepted
+        head = ch.pick("athead", [b"20 application/octet-stream\r\n", b"20 image/png\r\n",
+                                  b"20 application/x-" + b"p" * 900 + b"\r\n"])
+        body = b"c" * max(0, cap - ch.pick("below", [0, 1, 16, 31, 64, 1000]))
+        info["cls"] = "good"
+    elif k == 11:   # more than the cap without any CRLF
+        head = b"y" * (cap + 1 + ch.choose("nocrlfover", 3000))
+        info["cls"] = "no-crlf"
     else:           # body beyond the cap
         head = b"20 application/octet-stream\r\n"
         body = b"z" * (cap + 1 + ch.choose("over", 5000))
@@ -148,12 +158,18 @@ def gen_stream(ch, cap):
 
 def expectation(info, end, prefix_len, cap):
     """What the property demands of a call given the bytes actually sent."""
-    if end == "trickle":
+    trickle = end == "trickle"
+    if trickle:
         end = "stall"      # a server that never finishes, whether silent or dribbling
     sent = info["stream"][:prefix_len]
     i = sent.find(b"\r\n")
     exp = {"verdict": "either", "prompt": end != "stall", "timeout": False, "body": None,
            "status": None}
+    if trickle and len(sent) + 16 > cap >= len(sent) - 1100:
+        # the dribbled bytes themselves may cross the cap: an error, at the cap or at
+        # the timeout, whichever the byte count says - not pinned down here
+        exp.update(verdict="error", prompt=False)
+        return exp
     if i < 0:
         if len(sent) > cap:
             exp.update(verdict="error", prompt=True)
@@ -170,6 +186,12 @@ def expectation(info, end, prefix_len, cap):
         return exp
     strict = len(htxt) >= 3 and htxt[:2].isascii() and htxt[:2].isdigit() and htxt[2] == " "
     status = int(htxt[:2]) if strict else None
+    token = htxt.split(" ", 1)[0]
+    if token.isascii() and ((token.isdigit() and len(token) != 2) or
+                            (token[:1].isdigit() and not token.isdigit())):
+        # '2', '200', '2000', '20text/plain', '51x', '2x', '20\ttext': not a two-digit status
+        exp.update(verdict="error", prompt=True)
+        return exp
     if strict and not 10 <= status <= 69:
         exp.update(verdict="error", prompt=True)
         return exp
